@@ -191,7 +191,19 @@ def run(chk):
     chk.coq()
     # (+ a non-orthogonal up-down symmetric double null whose outer targets are so oblique that contours are extended to reach the wall: the leg that ENDS on the wall is the
     # mirror image of one that STARTS on it, so the two near-identical blocks of addPointAtWallToContours are compared with each other)
-    G = {g.name: g for g in corpus.get(tier=chk.tier, extra_cfgs=[corpus.steep_cdn_cfg(), dict(corpus.CONFIGS["usn_nonorth"], must_build=True)]) if g.ok}
+    # a single-null mirror pair WITHOUT target spacings (the default None selects other branches of the spacing functions, in particular of their
+    # continuation into the guard cells beyond the targets) and with guard cells.  One guard cell: with two, the exponentially growing
+    # continuation puts the outermost guard points beyond the Z range of the equilibrium data (there the lower single null still produces a grid,
+    # with meaningless distances for those points, while its mirror image raises 'Distance not monotonically increasing': FineContour.getDistance
+    # cannot see a point beyond its start but does see one beyond its end -- outside the supported envelope, recorded in DESIGN section 7)
+    nosp = {k: v for k, v in corpus.SN.items() if k != "target_all_poloidal_spacing_length"}
+    extra = [corpus.steep_cdn_cfg(), dict(corpus.CONFIGS["usn_nonorth"], must_build=True),
+             corpus.tok("lsn_nosp", "lsn", nosp, options=dict(ny_inner_divertor=3, ny_outer_divertor=5, y_boundary_guards=1), must_build=True),
+             corpus.tok("usn_nosp", "usn", nosp, options=dict(ny_inner_divertor=3, ny_outer_divertor=5, y_boundary_guards=1), must_build=True)]
+    # a disconnected double null in which only ONE of the two per-leg private-flux limits is given (the other falls back to psinorm_pf), and its mirror image
+    extra += [corpus.tok("udn_pfl", "udn", corpus.DN, options=dict(psinorm_pf_lower=0.93), must_build=True),
+              corpus.tok("udn_m_pfu", "udn_m", corpus.DN, mirror=True, options=dict(psinorm_pf_upper=0.93), must_build=True)]
+    G = {g.name: g for g in corpus.get(tier=chk.tier, extra_cfgs=extra) if g.ok}
     n = 0
     # the two ends of a region are treated alike by the non-orthogonal blending (a region's start is its mirror image's end)
     n += c10.check_range_parameters(chk, prefix="mirror:")
@@ -199,7 +211,7 @@ def run(chk):
 
     def st(k):
         return stats.setdefault(k, dict(pos=0.0, mag=0.0, xpoint_line=0.0))
-    mirrors = [("lsn_35", "usn", "sn"), ("cdn_nonorth_steep", "cdn_nonorth_steep", "dn-connected-nonorth-extended"), ("lsn_nonorth", "usn_nonorth", "sn-nonorth"), ("udn", "udn_m", "dn-disconnected"), ("cdn_sym", "cdn_sym", "dn-connected")]
+    mirrors = [("lsn_35", "usn", "sn"), ("cdn_nonorth_steep", "cdn_nonorth_steep", "dn-connected-nonorth-extended"), ("lsn_nonorth", "usn_nonorth", "sn-nonorth"), ("lsn_nosp", "usn_nosp", "sn-no-target-spacing"), ("udn", "udn_m", "dn-disconnected"), ("udn_pfl", "udn_m_pfu", "dn-one-per-leg-limit"), ("cdn_sym", "cdn_sym", "dn-connected")]
     if chk.tier == "thorough":
         mirrors += [("udn2", "udn2_m", "dn-disconnected")]
     for a, b, kind in mirrors:
